@@ -177,7 +177,7 @@ class CircuitExec {
   void badCall(Circuit &c, int opIndex, int kind, long long variant, bool inCallback, const ParamSpec *ctx = nullptr);
   void doPerturb(Circuit &c, const Op &op);
   void doSetOrient(Circuit &c, const Op &op);
-  void enumerateThrows(Circuit &c, int opIndex, const Op &op);
+  StageRun enumerateThrows(Circuit &c, int opIndex, const Op &op);
   void furtherCallAgrees(Circuit &a, int opIndex, int k);
 
   const Plan &plan_;
@@ -790,6 +790,7 @@ void CircuitExec::protocolAfter(Circuit &c, int opIndex, const std::string &how)
 
 void CircuitExec::pokeInCallback(Circuit &c, int opIndex, int k) {
   Snapshot before = takeSnapshot(c);
+  bool sizeFlag = c.hasCellSizeUpdate_, netFlag = c.hasNetUpdate_;
   auto attempt = [&](const char *name, const std::function<void()> &f) {
     Outcome o = guarded(f);
     stat("pokes_in_callback");
@@ -819,6 +820,8 @@ void CircuitExec::pokeInCallback(Circuit &c, int opIndex, int k) {
   std::string why;
   if (!fd.empty() || !samePlacement(before, after, &why))
     verdict("C10", "refused-setter-changed-state", "callback " + std::to_string(k) + ": " + fd + why, opIndex);
+  if (c.hasCellSizeUpdate_ != sizeFlag || c.hasNetUpdate_ != netFlag)
+    verdict("C10", "refused-setter-changed-state", "callback " + std::to_string(k) + ": a refused setter changed the public update flags of the circuit (hasCellSizeUpdate_ " + std::to_string(sizeFlag) + "->" + std::to_string(c.hasCellSizeUpdate_) + ", hasNetUpdate_ " + std::to_string(netFlag) + "->" + std::to_string(c.hasNetUpdate_) + ")", opIndex);
 }
 
 // ------------------------------------------------------ bad calls (C19) ---
@@ -1125,7 +1128,7 @@ void CircuitExec::furtherCallAgrees(Circuit &a, int opIndex, int k) {
   protocolAfter(a, opIndex, oa.returned() ? "return" : "exception");
 }
 
-void CircuitExec::enumerateThrows(Circuit &c, int opIndex, const Op &op) {
+CircuitExec::StageRun CircuitExec::enumerateThrows(Circuit &c, int opIndex, const Op &op) {
   // dry run on a copy: how many callback invocations does this op have?
   Circuit dry = c;
   Op dop = op;
@@ -1148,6 +1151,7 @@ void CircuitExec::enumerateThrows(Circuit &c, int opIndex, const Op &op) {
     protocolAfter(ck, opIndex, "exception");
     furtherCallAgrees(ck, opIndex, k);
   }
+  return d;
 }
 
 // ------------------------------------------------------------------ run ---
@@ -1179,8 +1183,28 @@ void CircuitExec::run() {
       case OP_GLOBAL:
       case OP_LEGALIZE:
       case OP_DETAILED: {
-        if (op.enumThrow) enumerateThrows(*c, i, op);
+        StageRun dry;
+        bool haveDry = false;
+        if (op.enumThrow) {
+          dry = enumerateThrows(*c, i, op);
+          haveDry = true;
+        }
         StageRun r = runStage(*c, i, op, -1, 0, false, "op" + std::to_string(i));
+        if (haveDry && op.allocFail < 0) {
+          // refused modifications change nothing: the call with a poking callback behaves
+          // exactly like the same call with a purely observing one
+          bool onlyPokes = true;
+          for (auto &a : op.actions)
+            if (a.kind != CB_POKE) onlyPokes = false;
+          if (onlyPokes) {
+            evald("C10");
+            std::string why;
+            if (dry.out.kind != r.out.kind || dry.out.what != r.out.what)
+              verdict("C10", "refused-setter-affected-the-call", "with a callback that only attempts (refused) structural modifications the call " + r.out.str() + ", with a purely observing callback it " + dry.out.str(), i);
+            else if (!samePlacement(dry.post, r.post, &why))
+              verdict("C10", "refused-setter-affected-the-call", "refused structural modifications inside callbacks changed the result of the call: " + why, i);
+          }
+        }
         protocolAfter(*c, i, r.out.returned() ? "return" : "exception");
         if (!r.out.returned() && !r.agentMutated && (i % 2 == 0)) {
           // ... followed by a further placement call (on a copy, so that the history continues unchanged)
